@@ -66,7 +66,8 @@ CHECKS["C43"] = c("abci", "TestC43", dict(checks=60, timeout=600), dict(checks=4
              level_text="The real export and the real genesis import are exercised on generated non-trivial states (unstaking and jailed records, pools, changed params); the normalised views of "
                         "exporter and importer must agree. Exploration; import cost bounds the case count.",
              level_note="Three of four histories submit relay-factory MsgClaim transactions so that 0-4 claims are pending at export; claims are read back by a raw store scan, independent of "
-                        "the exporter's GetAllClaims. The importer derives its feature schedule from the exported upgrade parameter, as a node started on the new chain would.")
+                        "the exporter's GetAllClaims, and compared with the importer's pending claims (since fix f241750 an export that holds claims can be imported). Every exported pos parameter is compared "
+                        "with the raw parameter store of the exporting node. The importer derives its feature schedule from the exported upgrade parameter, as a node started on the new chain would.")
 
 CHECKS["C13"] = c("abci", "TestC13", dict(checks=150, timeout=600), dict(checks=1500, shards=14, timeout=3000),
              technique="differential property-based testing: generated history with claims/proofs/stake changes/restarts executed with vs without generated service traffic (dispatch, RPC and ABCI queries at past heights)",
